@@ -31,7 +31,12 @@ EXTENDS Integers, Sequences, FiniteSets, TLC, Json
 
 CONSTANTS Programs,    \* sequence of [n |-> Nat, commits |-> strictly increasing sequence over 1..n,
                        \*              writes |-> sequence of the same length: writes made durable by each commit]
-          ErrKinds,    \* set of strings: SQLSTATEs and "cancel"
+          ErrKinds,    \* set of strings: the ways position pc+1 can fail --
+                       \*   a SQLSTATE (08006 connection failure, 40001, 57014 query cancelled, 40P01 deadlock victim),
+                       \*   "cancel": the request context is cancelled while the statement is in flight,
+                       \*   "txdone": the request context was cancelled BEFORE the statement (or COMMIT) was issued and the
+                       \*             transaction is already rolled back when it arrives (the caller is told "transaction
+                       \*             already done"): nothing of the open transaction may become durable or be announced
           Retryable,   \* subset of ErrKinds that the write path retries
           Emit         \* BOOLEAN: print the cases
 
